@@ -2,7 +2,7 @@
 # usage: tools/sys_matrix.sh name...   which seeded changes do the composite specification's behaviours (props/sysmodel.py) catch?
 cd /verif || exit 2
 for name in "$@"; do
-  d=seeded/$name; [ -f "$d/patch.diff" ] || continue
+  d=/verif/seeded/$name; [ -f "$d/patch.diff" ] || continue
   WT=$(mktemp -d /tmp/syswt.XXXXXX); rmdir "$WT"
   git -C /repo worktree add -q --detach "$WT" HEAD || continue
   if git -C "$WT" apply "$d/patch.diff" 2>/dev/null || git -C "$WT" apply --3way "$d/patch.diff" 2>/dev/null; then
